@@ -107,9 +107,11 @@ class FuncV:
     def __init__(self, node, mod, closure=None, self_obj=None, cls=None, qual=None):
         self.node, self.mod, self.closure, self.self_obj, self.cls = node, mod, closure, self_obj, cls
         self.qual = qual or getattr(node, "_vqual", None) or getattr(node, "name", "<lambda>")
+        self.attrs = {}          # attributes set on the function object
 
     def bind(self, obj):
         g = FuncV(self.node, self.mod, self.closure, obj, self.cls, self.qual)
+        g.attrs = self.attrs
         g.decorated = getattr(self, "decorated", False)
         if hasattr(self, "defaults"):
             g.defaults, g.kw_defaults = self.defaults, self.kw_defaults
@@ -139,6 +141,13 @@ class DictV:
 
     def __repr__(self):
         return "DictV(%r)" % ({k: v[1] for k, v in self.d.items()},)
+
+
+class PartialMethodV:
+    """functools.partialmethod(f, *args, **kw) bound at class level: read through an instance it is f(instance, *args, ...)"""
+
+    def __init__(self, f, pos, kw):
+        self.f, self.pos, self.kw = f, list(pos), dict(kw)
 
 
 class PropV:
@@ -365,6 +374,13 @@ class _ClassScope(dict):
 
     def get(self, name, default=None):
         return self[name] if name in self else default
+
+
+class _AttrsView:
+    """the attributes of a function object addressed like a DictV (for undo records)"""
+
+    def __init__(self, f):
+        self.d = f.attrs
 
 
 class _ConstsView:
@@ -1214,7 +1230,39 @@ class Interp:
             if node is None:
                 raise AnchorError(f"class {name} not found in {mod.rel}")
             c = self._classes[k] = ClassV(name, node, mod)
+            self._init_subclasses(mod)
         return c
+
+    def _init_subclasses(self, mod):
+        """class creation has effects when a base class defines __init_subclass__ (registries): run them once, in source order, for the
+        classes defined at module level"""
+        k = ("init_subclass", mod.rel)
+        if k in self._names:
+            return
+        self._names[k] = True
+        if "__init_subclass__" not in mod.source:
+            return
+        for st in mod.tree.body:
+            if not isinstance(st, ast.ClassDef):
+                continue
+            sub = self.cls(st.name, mod)
+            owner = None
+            for b in self._bases(sub):
+                o = self._owner(b, "__init_subclass__")
+                if "__init_subclass__" in o.methods:
+                    owner = o
+                    break
+            if owner is None:
+                continue
+            fn = owner.methods["__init_subclass__"]
+            try:
+                kw = {k_.arg: self.ev(k_.value, Frame(None, None, mod)) for k_ in st.keywords if k_.arg not in (None, "metaclass")}
+                self._invoke(FuncV(fn, owner.mod, owner.closure, sub, owner, f"{owner.name}.__init_subclass__"), [], kw, st)
+            except (Unsupported, _Raise, _CrashSig) as e:
+                # what the hook would have registered is not known: the class-level state of the hook's owner is not either
+                for nm in list(owner.consts):
+                    owner.consts[nm] = Unknown(f"__init_subclass__ of {owner.name} could not be followed for {st.name}: {e}")
+                owner.poisoned_by_hook = True
 
     def func(self, qual, mod=None):
         """FuncV of a module-level function `f` or a method `Class.m`"""
@@ -1244,7 +1292,7 @@ class Interp:
                 found = ("class", st)
             elif isinstance(st, ast.Assign):
                 for t in st.targets:
-                    if any(isinstance(x, ast.Name) and x.id == name for x in ast.walk(t)):
+                    if any(isinstance(x, ast.Name) and x.id == name and isinstance(x.ctx, ast.Store) for x in ast.walk(t)):
                         found = ("assign", st)
             elif isinstance(st, ast.AnnAssign) and isinstance(st.target, ast.Name) and st.target.id == name and st.value is not None:
                 found = ("assign", st)
@@ -1436,7 +1484,10 @@ class Interp:
         if isinstance(v, complex):
             return F.I * F.const(Fraction(repr(v.imag)))
         if isinstance(v, (int, float)):
-            return F.const(const_from_node(node, self.src))
+            c = getattr(node, "_v_exact", None)
+            if c is None:
+                c = node._v_exact = const_from_node(node, self.src)       # (the literal's decimal text, read once per node)
+            return F.const(c)
         return Unknown(f"constant {v!r}")
 
     def _lookup(self, name, fr):
@@ -1463,6 +1514,10 @@ class Interp:
         k = ("aliases", mod.rel)
         if k in self._names:
             return self._names[k]
+        shared = mod.__dict__.setdefault("_v_cache", {})
+        if "aliases" in shared:
+            self._names[k] = shared["aliases"]
+            return shared["aliases"]
         full = {}
 
         def dotted(e):
@@ -1496,6 +1551,7 @@ class Interp:
             if c is not None:
                 out[nm] = c
         self._names[k] = out
+        shared["aliases"] = out
         return out
 
     def _known_names(self, mod):
@@ -1504,6 +1560,10 @@ class Interp:
         k = mod.rel
         if k in self._names:
             return self._names[k]
+        shared = mod.__dict__.setdefault("_v_cache", {})
+        if "known" in shared:
+            self._names[k] = shared["known"]
+            return shared["known"]
         import builtins
         names = set(dir(builtins)) | {"__name__", "__file__", "__doc__", "__package__", "__spec__"}
         star = False
@@ -1546,6 +1606,7 @@ class Interp:
             if isinstance(st, ast.Call) and isinstance(st.func, ast.Name) and st.func.id in ("globals", "exec", "eval", "vars", "locals", "__import__"):
                 star = True
         self._names[k] = None if star else names
+        shared["known"] = self._names[k]
         return self._names[k]
 
     def _e_Name(self, node, fr):
@@ -1574,8 +1635,13 @@ class Interp:
             if c is not None and name not in c.methods:
                 cv = self._class_const(c, name)
                 if cv is not None:
+                    if isinstance(cv, FuncV) and cv.self_obj is None:
+                        return cv.bind(base)             # (a function stored in the class namespace is a method of its instances)
                     if isinstance(cv, PropV):
                         return self.apply(cv.fget, [base], {}, node or c.node)
+                    if isinstance(cv, PartialMethodV):
+                        pm, obj_ = cv, base
+                        return Native("partialmethod", lambda it_, p_, k_, nd_: it_.apply(pm.f, [obj_] + pm.pos + list(p_), {**pm.kw, **k_}, nd_))
                     if isinstance(cv, Obj) and cv.cls is not None and cv is not base and "__get__" in self._owner(cv.cls, "__get__").methods:
                         # a descriptor: the attribute is what its __get__(instance, owner) returns
                         return self.apply(self._getattr(cv, "__get__", node), [base, base.cls], {}, node or cv.cls.node)
@@ -1608,6 +1674,31 @@ class Interp:
                 if r is not NotImplemented:
                     return r
             return F.fn("attr:" + name, base)
+        if isinstance(base, FuncV):
+            if name in base.attrs:
+                return base.attrs[name]
+            if name in ("__name__", "__qualname__"):
+                return getattr(base.node, "name", "<lambda>") if name == "__name__" else base.qual
+            if name == "__doc__":
+                return ast.get_docstring(base.node) if not isinstance(base.node, ast.Lambda) else None
+            fname = getattr(base.node, "name", None)
+            if fname is not None and base.closure is None and base.self_obj is None:
+                # an attribute given to a module-level function by a module-level statement `f.attr = value`
+                found = [st for st in base.mod.tree.body if isinstance(st, ast.Assign) and len(st.targets) == 1
+                         and isinstance(st.targets[0], ast.Attribute) and st.targets[0].attr == name
+                         and isinstance(st.targets[0].value, ast.Name) and st.targets[0].value.id == fname]
+                if len(found) == 1:
+                    key = (base.mod.rel, fname + "." + name)
+                    if key not in self._globals:
+                        self._globals[key] = Unknown(f"recursive function attribute {fname}.{name}")
+                        try:
+                            self._globals[key] = self.ev(found[0].value, Frame(None, None, base.mod))
+                        except Unsupported as e:
+                            self._globals[key] = Unknown(str(e))
+                    return self._globals[key]
+                if found:
+                    return Unknown(f"function attribute {fname}.{name} bound more than once")
+            return Unknown(f"attribute {name} of a function")
         if isinstance(base, NamedT):
             if name in base._names:
                 return base[base._names.index(name)]
@@ -1628,10 +1719,19 @@ class Interp:
                 return Native("namedtuple._replace", repl)
             if c is not None and name in c.methods:
                 fn = c.methods[name]
+                deco = {d.id for d in fn.decorator_list if isinstance(d, ast.Name)}
+                if "staticmethod" in deco:
+                    return FuncV(fn, c.mod, c.closure, None, c, f"{c.name}.{name}")
+                if "classmethod" in deco:
+                    return FuncV(fn, c.mod, c.closure, c, c, f"{c.name}.{name}")
                 f = FuncV(fn, c.mod, c.closure, base, c, f"{c.name}.{name}")
-                if any(isinstance(d, ast.Name) and d.id == "property" for d in fn.decorator_list):
+                if "property" in deco:
                     return self._invoke(f, [], {}, node or fn)
                 return f
+            if c is not None:
+                cv = self._class_const(c, name)
+                if cv is not None:
+                    return cv
             return Unknown(f"attribute {name} of a namedtuple")
         if isinstance(base, ClassV) and name in ("_make", "_fields") and self._record_class(base) == "namedtuple" and name not in base.methods:
             if name == "_fields":
@@ -1642,6 +1742,18 @@ class Interp:
                 xs = it_._iterable(p_[0]) if len(p_) == 1 and not k_ else None
                 return it_._construct(c_, xs, {}, nd_) if xs is not None else Unknown("namedtuple._make of an unknown sequence")
             return Native(f"{base.name}._make", make)
+        if isinstance(base, ClassV) and name == "__dict__":
+            d = DictV()
+            for st in base.node.body:
+                if isinstance(st, (ast.FunctionDef, ast.AsyncFunctionDef)) and st.name in base.methods:
+                    d.d[("py", st.name)] = (st.name, FuncV(base.methods[st.name], base.mod, base.closure, None, base, f"{base.name}.{st.name}"))
+                elif isinstance(st, (ast.Assign, ast.AnnAssign)) and getattr(st, "value", None) is not None:
+                    for t in (st.targets if isinstance(st, ast.Assign) else [st.target]):
+                        for x in ast.walk(t):
+                            if isinstance(x, ast.Name) and isinstance(x.ctx, ast.Store):
+                                cv = self._class_const(base, x.id)
+                                d.d[("py", x.id)] = (x.id, cv if cv is not None else Unknown(f"class-level name {x.id}"))
+            return d
         if isinstance(base, ClassV):
             cls0 = base
             base = self._owner(base, name)
@@ -1656,6 +1768,9 @@ class Interp:
             if cv is not None:
                 return cv
             return Unknown(f"class attribute {name}")
+        if isinstance(base, (DictV, list, tuple, str)) and not name.startswith("_") or (isinstance(base, (DictV, list, tuple)) and name in ("__getitem__", "__contains__", "__len__")):
+            b_, nm_ = base, name
+            return Native(f"{type(base).__name__}.{name}", lambda it_, p_, k_, nd_: it_._call_value_method(b_, nm_, list(p_), k_, nd_, None))
         return Unknown(f"attribute {name} of {type(base).__name__}")
 
     def _bases(self, c):
@@ -2297,9 +2412,11 @@ class Interp:
             return list(g) if g is not None else None
         return None
 
-    def _next(self, itv):
-        """the next item of an iterator; raises _Stop when there is none"""
+    def _next(self, itv, send=None):
+        """the next item of an iterator (for a generator: after sending it `send[0]`); raises _Stop when there is none"""
         if itv.pos < len(itv.buf):
+            if send is not None:
+                raise Unsupported(f"{itv.what} driven by send() is re-run after a trial evaluation was rolled back")
             v = itv.buf[itv.pos]
         else:
             if itv.broken is not None:
@@ -2309,7 +2426,11 @@ class Interp:
             if len(itv.buf) >= MAX_UNROLL:
                 raise Unsupported(f"{itv.what} yields more than {MAX_UNROLL} items")
             try:
-                v = next(itv.gen)
+                v = next(itv.gen) if send is None else itv.gen.send(send[0])
+            except TypeError as e:
+                if send is not None:
+                    raise _CrashSig(Crash(f"TypeError: {e}"))
+                raise
             except StopIteration:
                 itv.done = True
                 raise _Stop()
@@ -2561,6 +2682,11 @@ class Interp:
                 if isinstance(r, (list, tuple)):
                     return type(r)(r)
             return Unknown(f"str.{attr}")
+        if isinstance(base, (DictV, list, tuple)) and attr in ("__getitem__", "__contains__", "__len__"):
+            fr0 = Frame(None, None, self.mod)
+            fr0.vars.update({"_b": base, "_k": pos[0] if pos else None})
+            txt = {"__getitem__": "_b[_k]", "__contains__": "_k in _b", "__len__": "len(_b)"}[attr]
+            return self.ev(ast.parse(txt, mode="eval").body, fr0)
         if isinstance(base, DictV):
             if attr == "items" and not pos:
                 return tuple((kv, v) for kv, v in base.d.values())
@@ -2636,6 +2762,16 @@ class Interp:
                     return self._next(base)
                 except _Stop:
                     raise _Raise(node)
+            if attr == "send" and len(pos) == 1 and not kw and base.what.startswith("generator "):
+                try:
+                    return self._next(base, send=(pos[0],))
+                except _Stop:
+                    raise _Raise(node)
+            if attr == "close" and not pos:
+                base.done = True                  # (nothing more is produced; a `finally` in the generator is not run: not lowered when there is one)
+                if any(isinstance(n, ast.Try) and n.finalbody for n in ast.walk(getattr(base, "fn_node", ast.Pass()))):
+                    return Unknown("close() of a generator with a `finally`")
+                return None
             return Unknown(f"{base.what}.{attr}")
         if isinstance(base, F.Rat):
             if attr == "copy" and not pos:
@@ -3138,6 +3274,8 @@ class Interp:
                 return pos[0][int(cval(pos[1]))]
             except IndexError:
                 return Crash(f"IndexError: operator.getitem on a sequence of length {len(pos[0])}")
+        if name == "functools.partialmethod" and n >= 1 and isinstance(pos[0], (FuncV, Native)):
+            return PartialMethodV(pos[0], pos[1:], kw)
         if name == "functools.partial" and n >= 1:
             f0, pre, prekw = pos[0], list(pos[1:]), dict(kw)
             if isinstance(f0, (FuncV, ClassV, Ref, Native)):
@@ -3267,12 +3405,19 @@ class Interp:
     def _fields(self, cls):
         """(name, default expression | None) of the annotated class-level names, in order (dataclass / NamedTuple fields)"""
         out = []
+        for b in self._bases(cls):
+            if self._record_class(b) is not None:
+                for n_, d_ in self._fields(b):
+                    out = [x for x in out if x[0] != n_] + [(n_, d_)]
         for st in cls.node.body:
             if isinstance(st, ast.AnnAssign) and isinstance(st.target, ast.Name):
                 ann = ast.unparse(st.annotation)
                 if "ClassVar" in ann:
                     continue
-                out.append((st.target.id, st.value))
+                if any(x[0] == st.target.id for x in out):
+                    out = [(n_, st.value if n_ == st.target.id else d_) for n_, d_ in out]      # (a redefined field keeps its position)
+                else:
+                    out.append((st.target.id, st.value))
         return out
 
     def _record_class(self, cls):
@@ -3284,6 +3429,9 @@ class Interp:
         for b in cls.node.bases:
             if ast.unparse(b) in ("NamedTuple", "typing.NamedTuple"):
                 return "namedtuple"
+        for b in self._bases(cls):
+            if self._record_class(b) == "dataclass" and "__init__" not in b.methods:
+                return "dataclass"          # (a subclass of a dataclass that is not decorated itself keeps the generated constructor)
         return None
 
     def _construct(self, cls, pos, kw, node):
@@ -3384,6 +3532,7 @@ class Interp:
             if _is_generator(fn):
                 # a generator function: the body runs when items are asked for
                 r = IterV(None, f"generator {f.qual}")
+                r.fn_node = fn
                 r.gen = self._gen_body(fn, fr, r)
                 r.is_cm = any(ast.unparse(d.func if isinstance(d, ast.Call) else d) in ("contextlib.contextmanager", "contextmanager") for d in fn.decorator_list)
                 rec.result = r
@@ -3423,14 +3572,42 @@ class Interp:
             if not _has_yield(st):
                 self.stmt(st, fr)
                 continue
+            if isinstance(st, (ast.Assign, ast.AugAssign, ast.AnnAssign, ast.Return, ast.Expr)) and st.value is not None \
+                    and not isinstance(st.value, (ast.Yield, ast.YieldFrom)):
+                # one `yield` inside a larger expression whose other parts only read locals and constants: the value it receives is
+                # bound to a temporary first (locals cannot change while the generator is suspended)
+                ys = [n for n in ast.walk(st.value) if isinstance(n, (ast.Yield, ast.YieldFrom))]
+                inner = set()
+                if len(ys) == 1 and isinstance(ys[0], ast.Yield):
+                    inner = {id(n) for n in ast.walk(ys[0])}
+                pure = len(ys) == 1 and isinstance(ys[0], ast.Yield) and all(
+                    id(n) in inner or isinstance(n, (ast.Name, ast.Constant, ast.BinOp, ast.UnaryOp, ast.Compare, ast.BoolOp, ast.Tuple, ast.IfExp, ast.expr_context,
+                                                     ast.operator, ast.unaryop, ast.cmpop, ast.boolop)) for n in ast.walk(st.value))
+                if not pure or any(isinstance(n, (ast.Yield, ast.YieldFrom)) for t_ in getattr(st, "targets", [getattr(st, "target", None)]) if t_ is not None for n in ast.walk(t_)):
+                    raise Unsupported(f"`yield` inside an expression at line {st.lineno}")
+                y = ys[0]
+                v = self.ev(y.value, fr) if y.value is not None else None
+                if is_crash(v):
+                    raise _CrashSig(v)
+                got = yield v
+                tmp = f"<yield@{st.lineno}>"
+                self._set_var(fr, tmp, got)
+
+                class _Swap(ast.NodeTransformer):
+                    def visit_Yield(self, node):
+                        return ast.copy_location(ast.Name(id=tmp, ctx=ast.Load()), node)
+                import copy as _copy
+                st2 = _Swap().visit(_copy.deepcopy(st))
+                ast.fix_missing_locations(st2)
+                self.stmt(st2, fr)
+                continue
             if isinstance(st, (ast.Expr, ast.Assign, ast.AnnAssign, ast.Return)) and isinstance(st.value, (ast.Yield, ast.YieldFrom)):
                 y = st.value
                 if isinstance(y, ast.Yield):
                     v = self.ev(y.value, fr) if y.value is not None else None
                     if is_crash(v):
                         raise _CrashSig(v)
-                    yield v
-                    got = None                   # (what `send` would deliver: the consumers modelled here only ask for the next item)
+                    got = yield v                # (what `send` delivers; None when the consumer only asks for the next item)
                 else:
                     srcv = self.ev(y.value, fr)
                     src = self._iter(srcv)
@@ -3701,6 +3878,9 @@ class Interp:
             elif isinstance(base, ClassV):
                 self._log("dict", _ConstsView(base), t.attr, base.consts.get(t.attr, _MISSING))
                 base.consts[t.attr] = v
+            elif isinstance(base, FuncV):
+                self._log("dict", _AttrsView(base), t.attr, base.attrs.get(t.attr, _MISSING))
+                base.attrs[t.attr] = v
         elif isinstance(t, ast.Starred):
             self._bind_target(t.value, v, fr, st)
         elif isinstance(t, ast.Subscript):
@@ -4298,7 +4478,46 @@ class Interp:
         except Unsupported as e:
             raise Unsupported(f"{first}; as a loop summarised by one pass: {e}" if n else str(e))
 
-    def _summarize(self, rec, st, fr, test, extra_carried=()):
+    def _slots(self, fr):
+        """the container slots reachable from the locals of the frame: {(id(container), key): (label, container, key)} and, for the
+        arrays they hold, {id(array): slot key} -- `EI[1]`, `state["E"]`, `obj.attr` are places a loop may carry a value in"""
+        slots, held = {}, {}
+        for name, v in list(fr.vars.items()):
+            if isinstance(v, list) and not any(isinstance(x, PoisonedSeq) for x in v):
+                for i, x in enumerate(v):
+                    slots.setdefault((id(v), i), (f"{name}[{i}]", v, i))
+                    if isinstance(x, F.Rat):
+                        held.setdefault(id(x), (id(v), i))
+            elif isinstance(v, DictV) and v.poisoned is None:
+                for k, (kv, x) in v.d.items():
+                    slots.setdefault((id(v), k), (f"{name}[{kv!r}]", v, k))
+                    if isinstance(x, F.Rat):
+                        held.setdefault(id(x), (id(v), k))
+            elif isinstance(v, Obj):
+                for a, x in v.attrs.items():
+                    slots.setdefault((id(v), a), (f"{name}.{a}", v, a))
+                    if isinstance(x, F.Rat):
+                        held.setdefault(id(x), (id(v), a))
+        return slots, held
+
+    @staticmethod
+    def _slot_get(c, k):
+        if isinstance(c, list):
+            return c[k] if k < len(c) else _MISSING
+        if isinstance(c, DictV):
+            return c.d[k][1] if k in c.d else _MISSING
+        return c.attrs.get(k, _MISSING)
+
+    def _slot_set(self, c, k, v):
+        if isinstance(c, list):
+            self._touch_list(c)
+            c[k] = v
+        elif isinstance(c, DictV):
+            self._set_item(c, k, (c.d[k][0] if k in c.d else k[1], v))
+        else:
+            self._set_attr(c, k, v)
+
+    def _summarize(self, rec, st, fr, test, extra_carried=(), extra_slots=()):
         """one pass over the body on symbols: every carried local starts as <name>@in<k>; afterwards it is <name>@out<k> (or @exit<k> when
         the loop can also be left from inside its body, or was first tried by unrolling: the rules that understand counted loops do not
         take those for one).  Anything else the pass changes (an array / list / dict / attribute that existed before the loop, updated
@@ -4320,6 +4539,31 @@ class Interp:
         for n in rec.carried:
             ins[n] = rec.in_sym(n)
             self._set_var(fr, n, ins[n])
+        # container slots that carry a value through the loop (found by a first pass): the slot starts as <label>@in<k>; an array held in
+        # it *is* that symbol for the pass (so what is updated in place through any alias is seen)
+        slot_state = []
+        for label, cont, key in extra_slots:
+            cur = self._slot_get(cont, key)
+            if cur is _MISSING:
+                continue
+            sym = rec.in_sym(label)
+            rec.carried.append(label)
+            rec.init[label] = clone(cur)
+            if isinstance(cur, F.Rat):
+                slot_state.append((label, cont, key, cur, (cur.n, cur.d)))
+                cur.n, cur.d = sym.n, sym.d
+                ins[label] = cur
+            else:
+                slot_state.append((label, cont, key, cur, None))
+                self._slot_set(cont, key, sym)
+                ins[label] = sym
+
+        def restore_slots():
+            for label, cont, key, cur, saved in slot_state:
+                if saved is not None:
+                    cur.n, cur.d = saved
+                else:
+                    self._slot_set(cont, key, cur)
         if isinstance(st, ast.For):
             self._bind_target(st.target, getattr(rec, "item", None) if hasattr(rec, "item") else F.sym(f"<index>@{rec.k}"), fr, st)
         j = self.begin()
@@ -4337,24 +4581,40 @@ class Interp:
                 raise Unsupported(f"control flow inside a loop with a symbolic trip count at line {st.lineno}")
             except _CrashSig as c:
                 raise Unsupported(f"the body of a loop with a symbolic trip count raises: {c.crash.why}")
-            rec.out = {n: clone(fr.vars.get(n)) for n in rec.carried}
+            rec.out = {n: clone(fr.vars.get(n)) for n in rec.carried if n in before}
+            for label, cont, key, _cur, _saved in slot_state:
+                rec.out[label] = clone(self._slot_get(cont, key))
         except BaseException:
             self.rollback(j)
-            for n in rec.carried:
+            for n in before:
                 self._set_var(fr, n, before[n])
+            restore_slots()
             raise
         finally:
             if self._loopmode and self._loopmode[-1] is rec:
                 self._loopmode.pop()
         undo = list(j["undo"])
         # a local array the pass updated in place without assigning the name (np.add(..., out=X), X.fill(..)): it is carried too
-        if not extra_carried:
+        if not extra_carried and not extra_slots:
             byid = {id(v): n for n, v in fr.vars.items() if isinstance(v, F.Rat) and n not in rec.carried and local(n)}
             more = [byid[id(e[1])] for e in undo if e[0] == "rat" and id(e[1]) in byid]
             # (and a local that a closure called in the pass rebinds through `nonlocal`)
             more += [e[2] for e in undo if e[0] == "var" and e[1] is fr.vars and e[2] not in names and e[2] in before_all
                      and not (isinstance(st, ast.For) and any(isinstance(x, ast.Name) and x.id == e[2] for x in ast.walk(st.target)))]
-            if more:
+            # (and slots of containers bound to locals: EI[1] += ..., state["E"] = ..., obj.attr = ...)
+            slots, held = self._slots(fr)
+            hit = []
+            for e in undo:
+                if e[0] == "rat" and id(e[1]) in held and id(e[1]) not in byid and held[id(e[1])] in slots:
+                    hit.append(held[id(e[1])])
+                elif e[0] == "list" and len(e[1]) == len(e[2]):
+                    hit += [(id(e[1]), i) for i, (x, y) in enumerate(zip(e[1], e[2])) if x is not y and (id(e[1]), i) in slots]
+                elif e[0] == "dict" and isinstance(e[1], DictV) and (id(e[1]), e[2]) in slots and e[3] is not _MISSING:
+                    hit.append((id(e[1]), e[2]))
+                elif e[0] == "attr" and (id(e[1]), e[2]) in slots and e[3] is not _MISSING:
+                    hit.append((id(e[1]), e[2]))
+            more_slots = [slots[k_] for k_ in dict.fromkeys(hit)]
+            if more or more_slots:
                 self.rollback(j)
                 for n in rec.carried:
                     self._set_var(fr, n, before[n])
@@ -4363,7 +4623,7 @@ class Interp:
                 if hasattr(rec, "item"):
                     rec2.item = rec.item
                 rec.__dict__.update(rec2.__dict__)
-                return self._summarize(rec, st, fr, test, tuple(dict.fromkeys(more)))
+                return self._summarize(rec, st, fr, test, tuple(dict.fromkeys(more)), tuple(more_slots))
         self.commit(j)
         # a counted loop (for over a range, `while` on a counter: see trip_count) leaves <name>@out<k>; a loop whose number of passes
         # depends on the data leaves <name>@exit<k> (the rules do not take such a result for a value they can compare)
@@ -4373,6 +4633,7 @@ class Interp:
             raise Unsupported(f"`else` of a loop that is left under an undecided test at line {st.lineno}")
         # what the pass changed besides the locals of this frame
         in_ids = {id(v) for v in ins.values()}
+        carried_slots = {(id(cont), key) for _l, cont, key, _c, _s in slot_state}
         seen = set()
         for e in undo:
             loc = _loc(e)
@@ -4382,6 +4643,11 @@ class Interp:
             if e[0] == "var" and e[1] is fr.vars:
                 continue
             if e[0] == "rat" and id(e[1]) in in_ids:
+                continue
+            if e[0] in ("dict", "attr") and (id(e[1]), e[2]) in carried_slots:
+                continue
+            if e[0] == "list" and len(e[1]) == len(e[2]) and all(x is y or (id(e[1]), i) in carried_slots or same_value(x, y)
+                                                                   for i, (x, y) in enumerate(zip(e[1], e[2]))):
                 continue
             cur, old = _current(e), _old_of(e)
             if cur is not _MISSING and old is not _MISSING and same_value(cur, old):
@@ -4394,7 +4660,7 @@ class Interp:
                 self._set_var(fr, n, Unknown("a nonlocal name assigned inside a symbolic loop"))
             elif n in rec.exit_assigned:
                 self._set_var(fr, n, Unknown(f"assigned where the loop at line {st.lineno} is left under an undecided test"))
-            elif n in rec.carried:
+            elif n in rec.carried and n in before:
                 o = F.sym(f"{n}@{tag}{rec.k}")
                 orig = before[n]
                 if fr.vars.get(n) is ins[n] and isinstance(orig, F.Rat) and not same_value(rec.out[n], ins[n]):
@@ -4405,6 +4671,15 @@ class Interp:
                     self._set_var(fr, n, o)
             else:
                 self._set_var(fr, n, Unknown("assigned inside a symbolic loop"))
+        for label, cont, key, cur, saved in slot_state:
+            o = F.sym(f"{label}@{tag}{rec.k}")
+            now = self._slot_get(cont, key)
+            if saved is not None and now is cur:
+                self._set_rat(cur, o)              # the array held in the slot was updated in place: it is the loop's result now
+            else:
+                if saved is not None:
+                    cur.n, cur.d = saved           # (the slot was given another object: the one it held before is as it was)
+                self._slot_set(cont, key, o)
         self.loops.append(rec)
         if st.orelse:
             self.run(st.orelse, fr)
